@@ -36,7 +36,7 @@ PRODUCERS = ["inline", "inline_angle", "image", "image_angle", "autolink", "ref_
 
 
 def floors(tier):
-    f = {"urls.token": 50000, "urls.html": 20000, "literal_twins_compared": 20000, "method_composition": 20000, "scheme_spellings_distinct": 500, "autolink.email": 2000}
+    f = {"urls.token": 50000, "urls.html": 20000, "literal_twins_compared": 20000, "method_composition": 20000, "scheme_spellings_distinct": 500, "autolink.email": 2000, "long_destinations": 1000}
     for p in PRODUCERS:
         f["emitted." + p] = 200
         f["rejected." + p] = 200 if not p.startswith("linkify") else 50
@@ -123,7 +123,7 @@ def bad_dest(rng):
 
 
 TEMPLATES = {
-    "inline": ["[t]({d})", "[t]({d} \"title\")", "a [t *e*]({d}) b"],
+    "inline": ["[t]({d})", "[t]({d} \"title\")", "a [t *e*]({d}) b", "[see [x]({d}) too]", "[o [i]({d}) p](/outer)", "![alt [x]({d}) y](/img)"],
     "inline_angle": ["[t](<{d}>)", "[t](<{d}> 'ti')"],
     "image": ["![t]({d})", "![t *e*]({d} \"ti\")"],
     "image_angle": ["![t](<{d}>)"],
@@ -131,7 +131,7 @@ TEMPLATES = {
     "ref_link": ["[r]: {d}\n\n[t][r]", "[r]: {d} 'ti'\n\n[r]"],
     "ref_image": ["[r]: {d}\n\n![t][r]"],
     "ref_angle": ["[r]: <{d}>\n\n[t][r] ![i][r]"],
-    "linkify_core": ["see {d} now", "{d}"],
+    "linkify_core": ["see {d} now", "{d}", "\\*www.example.com and {d}", "&amp;a@b.co then {d} and www.x.yz", "\\_m@n.op {d}"],
     "linkify_inline": ["x {d} y", "{d}"],
 }
 DISABLE_FOR = {
@@ -263,6 +263,11 @@ def run(ctx):
             if rng.random() < 0.6:
                 d = rng.choice(["javascript:alert(1)", "JaVaScRiPt:alert(1)", "data:text/html,x", "DATA:image/svg+xml,x", "vbscript:x", "file:c:/x",
                                 "www.ex.com/a?b=c&d", "a@b.co", "mailto:x@y.zz", "data:image/png;base64,xx", "www.é.com/ü"])
+        if prod in ("inline", "image", "ref_link", "inline_angle") and rng.random() < 0.08:
+            # long destinations (caches and fast paths are often keyed on size)
+            sch = rng.choice(["data:text/html;base64,", "javascript:", "DATA:image/svg+xml,", "data:image/png;base64,", "http://a.b/"])
+            d = sch + "A" * rng.choice([1000, 1024, 1100, 4000])
+            ctx.count("long_destinations")
         if prod == "autolink" and rng.random() < 0.3:
             # e-mail autolinks: the local part may hold characters that are not URL-safe
             d = rng.choice(["a{b@example.com", "100%@ex.com", "x|y@z.co", "q^r@s.tu", "a`b@c.de", "u}v@w.xy", "p%zz@q.rs", "ok@host.example", "A.B+c@d-e.fg", "a!#$&'*/=?b@c.d"])
